@@ -1104,3 +1104,4 @@ end Agd.HashPrefix
 #print axioms Agd.Tie.TrC11.txt_only
 #print axioms Agd.Tie.TrC11.filterable_iff
 #print axioms Agd.Tie.TrC11.resp_for_family
+#print axioms Agd.Tie.TrC11.isFilterable_tr
